@@ -205,21 +205,27 @@ func (rd *remoteDelivery) connectionForDomain(ctx context.Context, domain string
 		return c, nil
 	}
 
-	pooledConn, err := rd.rt.pool.Get(ctx, domain)
-	if err != nil {
-		return nil, err
-	}
-
 	var conn *mxConn
 	// Ignore pool for connections with REQUIRETLS to avoid "pool poisoning"
 	// where attacker can make messages indeliverable by forcing reuse of old
 	// connection with weaker security.
-	if pooledConn != nil && !rd.msgMeta.SMTPOpts.RequireTLS {
-		conn = pooledConn.(*mxConn)
-		rd.Log.Msg("reusing cached connection", "domain", domain, "transactions_counter", conn.transactions,
-			"local_addr", conn.LocalAddr(), "remote_addr", conn.RemoteAddr())
-	} else {
-		rd.Log.DebugMsg("opening new connection", "domain", domain, "cache_ignored", pooledConn != nil)
+	//
+	// The connection is not taken out of the pool at all then: nobody would
+	// close it.
+	if !rd.msgMeta.SMTPOpts.RequireTLS {
+		pooledConn, err := rd.rt.pool.Get(ctx, domain)
+		if err != nil {
+			return nil, err
+		}
+		if pooledConn != nil {
+			conn = pooledConn.(*mxConn)
+			rd.Log.Msg("reusing cached connection", "domain", domain, "transactions_counter", conn.transactions,
+				"local_addr", conn.LocalAddr(), "remote_addr", conn.RemoteAddr())
+		}
+	}
+	if conn == nil {
+		rd.Log.DebugMsg("opening new connection", "domain", domain, "cache_ignored", rd.msgMeta.SMTPOpts.RequireTLS)
+		var err error
 		conn, err = rd.newConn(ctx, domain)
 		if err != nil {
 			return nil, err
